@@ -493,6 +493,20 @@ def run(ctx, col: Collector):
                       'single-character quotes do not span lines (an unterminated string cannot run on)',
                       f'string token quoted with {q.a["quote"]!r} is multiline: an unterminated string swallows the following lines up to the '
                       f'next quote', node=_N(q), file=q.file)
+        # the styles of ONE string token agree on the escape character: if `'..'` and the triple-quoted style treat a backslash as an escape but `".."` does not, a literal
+        # that ends in `\"` closes early instead of being unterminated, and the rest of the line is read as something else
+        sl = gm.var('generic', 'string_literal')
+        from ..grammar import flatten_alt
+        styles = [a for a in flatten_alt(sl, ('first', 'or')) if a.kind == 'quoted']
+        escs = {a.a['quote']: a.a.get('esc') for a in styles}
+        if len(styles) >= 2:
+            majority = max(set(escs.values()), key=lambda v: sum(1 for x in escs.values() if x == v))
+            for qv, ev_ in sorted(escs.items()):
+                col.check(ev_ == majority, 'C07-strings', f'string_literal:{qv}:escape-agrees', f'style {qv} uses the escape character {majority!r} like its siblings',
+                          f'the {qv}..{qv} style of the string token has escape character {ev_!r} while its sibling styles use {majority!r}: a backslash before the closing '
+                          f'{qv} does not escape it, so a literal that the other styles would find unterminated is accepted and the rest of the line is parsed as '
+                          f'settings' + (' (an unknown keyword argument is ignored by pyparsing: check the spelling of esc_char)' if ev_ is None else ''),
+                          node=_N(sl), file=sl.file)
         # a column needs a name and a type
         cols = gm.nodes_with_action('parse_column')
         col.floor('C07-strings', 'column rules', len(cols), 2)
